@@ -1318,6 +1318,16 @@ namespace awkward {
       return rpad_axis0(target, false);
     }
     else if (posaxis == depth + 1) {
+      if (parameter_equals("__array__", "\"string\"")  ||
+          parameter_equals("__array__", "\"bytestring\"")) {
+        throw std::invalid_argument(
+          std::string("axis exceeds the depth of this array (strings are not padded "
+                      "character by character)") + FILENAME(__LINE__));
+      }
+      if (length() != 0  &&  target > kMaxInt64 / 8 / length()) {
+        throw std::invalid_argument(
+          std::string("pad target is too large") + FILENAME(__LINE__));
+      }
       int64_t min = target;
       if (starts_.length() != 0) {
         struct Error err1 = kernel::ListArray_min_range<T>(
